@@ -1,8 +1,9 @@
 INIT Init
 NEXT Next
 CONSTANTS
+  Dev = {"union_multiplies"}
   Kinds = {"layout"}
-  Strict = TRUE
+  Strict = FALSE
   Full = FALSE
   MaxCnt = 1
 INVARIANT InvAccessor
